@@ -9,22 +9,29 @@
 (* round trip is replayed: every opcode of the static table (through the   *)
 (* opcode lists of BMIsaOpLists), one member of each dynamically named     *)
 (* opcode family that can be created offline (FloPoCo opcodes need the     *)
-(* external flopoco generator, the linear quantizer opcodes a ranges file),                                         *)
-(* opcode family, every shared-object kind with 1..2 attached processors,  *)
-(* threaded processors, WordSize overrides, and the bond graphs of the     *)
-(* BMTopology state space (replayed by the harness from that model's       *)
-(* dumped graph).                                                          *)
+(* external flopoco generator, the linear quantizer opcodes a ranges file),*)
+(* every shared-object kind with 1..2 attached processors (square and      *)
+(* non-square text memories), Threaded in 0..2, WordSize overrides, and    *)
+(* the bond graphs of the BMTopology state space (replayed by the harness  *)
+(* from that model's dumped graph).                                        *)
+(*                                                                         *)
+(* The loading process has an opcode REGISTRY (procbuilder.Allopcodes):    *)
+(* the statically known opcodes plus the dynamically named ones created so *)
+(* far.  reg is the set of dynamic names the loading process already knows:*)
+(* a machine is loaded either by the process that built it (reg contains   *)
+(* its dynamic names) or by a fresh process (reg = {}); loading registers   *)
+(* the names and still leaves the machine unchanged.                       *)
 (***************************************************************************)
 EXTENDS Integers, Sequences, FiniteSets, TLC, BMIsaOpLists, Json, IOUtils, SequencesExt
 
-VARIABLE m
+VARIABLES m, reg
 
 DynOps == <<"addfps8f4", "addfxps8f4", "calla4st", "callo4st", "divfps8f4",
             "multfps8f4", "multfxps8f4", "pull4st", "push4st", "ret4st", "rsets8">>
-SharedKinds == {"sharedmem:16", "channel:", "barrier:8", "lfsr8:7", "vtextmem:0:1:1:8:4", "queue:4", "stack:4", "uart:9600:4", "kbd:4"}
+SharedKinds == {"sharedmem:16", "channel:", "barrier:8", "lfsr8:7", "vtextmem:0:1:1:8:4", "vtextmem:0:2:3:20:5", "queue:4", "stack:4", "uart:9600:4", "kbd:4"}
 
 Dom(ops, thr, ws) == [ops |-> ops, threaded |-> thr, wsextra |-> ws]
-Doms == {Dom(ops, thr, ws) : ops \in OpLists \cup {DynOps, <<"add", "j", "rsets8">>}, thr \in {0, 2}, ws \in {0, 3}}
+Doms == {Dom(ops, thr, ws) : ops \in OpLists \cup {DynOps, <<"add", "j", "rsets8">>}, thr \in {0, 1, 2}, ws \in {0, 3}}
 
 \* a machine: one or two processors of one domain, shared objects each attached to a set of processors
 Machines ==
@@ -32,14 +39,17 @@ Machines ==
   {[dom |-> Dom(OL4, 0, 0), nproc |-> 2, sos |-> <<s>>, att |-> <<a>>] : s \in SharedKinds, a \in {{0}, {0, 1}}} \cup
   {[dom |-> Dom(OL4, 0, 0), nproc |-> 2, sos |-> <<s1, s2>>, att |-> <<{0}, {1}>>] : s1 \in {"queue:4", "stack:4"}, s2 \in {"channel:", "sharedmem:16"}}
 
-Init == m \in Machines
-SaveLoad == UNCHANGED m
+DynNames(x) == {x.dom.ops[i] : i \in DOMAIN x.dom.ops} \cap {DynOps[i] : i \in DOMAIN DynOps}
+Init == m \in Machines /\ reg \in {{}, DynNames(m)}
+SaveLoad == m' = m /\ reg' = reg \cup DynNames(m)
 Next == SaveLoad
-Spec == Init /\ [][Next]_m
+Spec == Init /\ [][Next]_<<m, reg>>
 
 \* persistence never changes the machine
-Unchanged == [][m' = m]_m
+Unchanged == [][m' = m]_<<m, reg>>
+Registered == [][DynNames(m) \subseteq reg']_<<m, reg>>
 
-Export(x) == [dom |-> x.dom, nproc |-> x.nproc, sos |-> x.sos, att |-> [i \in DOMAIN x.att |-> SetToSeq(x.att[i])]]
-ASSUME ndJsonSerialize(IOEnv.ROWS, SetToSeq({Export(x) : x \in Machines}))
+\* fresh = the loading process has never seen the machine's dynamic opcode names
+Export(x, fresh) == [dom |-> x.dom, nproc |-> x.nproc, sos |-> x.sos, att |-> [i \in DOMAIN x.att |-> SetToSeq(x.att[i])], fresh |-> fresh]
+ASSUME ndJsonSerialize(IOEnv.ROWS, SetToSeq({Export(x, FALSE) : x \in Machines} \cup {Export(x, TRUE) : x \in {y \in Machines : DynNames(y) # {}}}))
 =============================================================================
